@@ -20,7 +20,7 @@ use tokio::net::{TcpListener, TcpStream, UdpSocket, UnixStream};
 
 const RULE: &str = "one case = one conversation through a real client/server pair on loopback: a scripted local client enters through a fixed TCP remote, a Unix-socket remote, SOCKS4, SOCKS4a, SOCKS5 (IPv4 / IPv6 / domain) or HTTP CONNECT and talks to a scripted target \
 (request/response, target-first half-close, simultaneous transfers of several windows, target closes at once, target refuses, target aborts mid-transfer), payloads position-addressed, write chunking and pauses seeded, 1-16 conversations concurrently; \
-or one UDP exchange: 1-8 local sockets (plain UDP remote and SOCKS5 UDP ASSOCIATE mixed), payloads 0..60000 bytes, target answering 0-3 replies per request. \
+or one UDP exchange: 1-8 local sockets (plain UDP remote and SOCKS5 UDP ASSOCIATE mixed; each SOCKS5 association addresses two different targets datagram by datagram), payloads 0..60000 bytes, target answering 0-3 replies per request. \
 Oracle: each side receives exactly the other side's byte stream (prefix always, complete after a half-close), half-close propagates while the other direction continues, the local connection is closed when the target closes/refuses/aborts; \
 every UDP reply carries the tag of the socket that receives it, comes from the address that socket sent to, is not duplicated, and (SOCKS5) parses with a reference RFC 1928 parser to the unmodified payload. \
 A hang is a violation only with a process-quiescence witness. Non-trivial = the conversation reached the target or the refusal path was exercised";
@@ -179,6 +179,8 @@ struct Env {
     target_port: u16,
     refuse_port: u16,
     udp_target_port: u16,
+    /// a second UDP target (replies marked 'S'): one SOCKS5 association addresses both
+    udp_target2_port: u16,
 }
 
 trait Duplex: AsyncRead + AsyncWrite + Unpin + Send {}
@@ -380,11 +382,14 @@ struct UdpObs {
     wrong_source: usize,
     duplicates: usize,
     corrupted: usize,
+    /// replies produced by the other UDP target than the one the datagram was addressed to
+    wrong_target: usize,
+    two_targets_used: bool,
     bad_header: Vec<String>,
     assoc_err: Option<String>,
 }
 
-async fn udp_target(sock: UdpSocket) {
+async fn udp_target(sock: UdpSocket, marker: u8) {
     let mut b = vec![0u8; 70000];
     loop {
         let Ok((n, from)) = sock.recv_from(&mut b).await else { break };
@@ -396,7 +401,7 @@ async fn udp_target(sock: UdpSocket) {
         // byte 9 of the request says how many replies (0..=3)
         let k = b[9] % 4;
         for r in 0..k {
-            let mut out = vec![b'R', r];
+            let mut out = vec![marker, r];
             out.extend_from_slice(&b[..n]);
             sock.send_to(&out, from).await.ok();
         }
@@ -451,14 +456,19 @@ async fn udp_client(env: Arc<Env>, seed: u64, cid: u64, socks5: bool, n: usize, 
         req.extend((seq).to_be_bytes()); // 10..14
         req.extend(prf_vec(mix(seed, cid * 1000 + u64::from(seq)), 0, plen));
         let k = req[9] % 4;
+        // through a SOCKS5 association every datagram names its own target
+        let second = socks5 && rng.chance(1, 2);
+        if second {
+            o.two_targets_used = true;
+        }
         for r in 0..k {
-            let mut out = vec![b'R', r];
+            let mut out = vec![if second { b'S' } else { b'R' }, r];
             out.extend_from_slice(&req);
             expected.insert((seq, r), out);
         }
         let wire = if socks5 {
             let mut w = vec![0u8, 0, 0, 1, 127, 0, 0, 1];
-            w.extend(env.udp_target_port.to_be_bytes());
+            w.extend(if second { env.udp_target2_port } else { env.udp_target_port }.to_be_bytes());
             w.extend(&req);
             w
         } else {
@@ -501,7 +511,7 @@ async fn collect(sock: &UdpSocket, dest: SocketAddr, socks5: bool, cid: u64, exp
             &b[..n]
         };
         o.replies += 1;
-        if payload.len() < 16 || payload[0] != b'R' {
+        if payload.len() < 16 || (payload[0] != b'R' && payload[0] != b'S') {
             o.corrupted += 1;
             continue;
         }
@@ -518,6 +528,7 @@ async fn collect(sock: &UdpSocket, dest: SocketAddr, socks5: bool, cid: u64, exp
                     o.duplicates += 1;
                 }
             }
+            Some(want) if want[1..] == payload[1..] => o.wrong_target += 1,
             _ => o.corrupted += 1,
         }
     }
@@ -551,7 +562,10 @@ async fn run_once(seed: u64, convs: Vec<Conv>, udp_clients: Vec<(u64, bool, usiz
     let t6 = tokio::spawn(target_listener(tl6, targets.clone()));
     let ut = UdpSocket::bind("127.0.0.1:0").await.expect("bind");
     let udp_target_port = ut.local_addr().expect("addr").port();
-    let ue = tokio::spawn(udp_target(ut));
+    let ue = tokio::spawn(udp_target(ut, b'R'));
+    let ut2 = UdpSocket::bind("127.0.0.1:0").await.expect("bind");
+    let udp_target2_port = ut2.local_addr().expect("addr").port();
+    let ue2 = tokio::spawn(udp_target(ut2, b'S'));
     let env = Arc::new(Env {
         fixed_port: net::free_tcp_port(false),
         fixed_refuse_port: net::free_tcp_port(false),
@@ -562,6 +576,7 @@ async fn run_once(seed: u64, convs: Vec<Conv>, udp_clients: Vec<(u64, bool, usiz
         target_port,
         refuse_port: net::free_tcp_port(false),
         udp_target_port,
+        udp_target2_port,
     });
     let args: &'static ClientArgs = Box::leak(Box::new(ClientArgs {
         server: ServerUrl::from_str(&format!("ws://{srv_addr}/ws")).expect("url"),
@@ -648,6 +663,7 @@ async fn run_once(seed: u64, convs: Vec<Conv>, udp_clients: Vec<(u64, bool, usiz
     t4.abort();
     t6.abort();
     ue.abort();
+    ue2.abort();
     out
 }
 
@@ -756,6 +772,12 @@ fn judge(st: &mut Stats, seed: u64, out: &RunOut) {
         }
         if o.duplicates > 0 {
             st.violation(Violation { signature: format!("udp-duplicate|{kind}"), detail: format!("{} replies were delivered twice", o.duplicates), replay: replay() });
+        }
+        if o.two_targets_used {
+            st.target("socks5_associations_with_two_targets", 1);
+        }
+        if o.wrong_target > 0 {
+            st.violation(Violation { signature: format!("udp-reached-wrong-target|{kind}"), detail: format!("{} datagrams were answered by the other UDP target than the one they were addressed to (the datagram did not reach its target)", o.wrong_target), replay: replay() });
         }
         if o.corrupted > 0 {
             st.violation(Violation { signature: format!("udp-corrupted|{kind}"), detail: format!("{} replies do not match any reply the target sent for this client (payload modified)", o.corrupted), replay: replay() });
